@@ -277,8 +277,12 @@ LONG_IN = [1023, 1024, 1025, 1500, 2047, 2048, 2049, 2600, 3001]
 @st.composite
 def long_case(draw, tier="quick"):
     m = draw(st.sampled_from(LONG_IN))
-    M = draw(st.sampled_from([m, m + 1, m + 2, 2 * m - 1, 2 * m, 2 * m + 1, 4 * m + 3, 3 * m + 2]))
-    while M * m > 9_000_000 and M > m:
+    if draw(st.integers(0, 3)):
+        # kernel element count M*m aimed between 2^22 and 9e6, either parity and residue of M
+        M = max(m, draw(st.integers(2**22 + 1, 9_000_000)) // m + draw(st.integers(0, 2)))
+    else:
+        M = draw(st.sampled_from([m, m + 1, m + 2, 2 * m - 1, 2 * m, 2 * m + 1]))
+    while M * m > 9_100_000 and M > m:
         M = max(m, M // 2 + 1)
     return {"m": m, "M": M, "thin_in": draw(st.integers(1, 3)), "thin_out": draw(st.integers(1, 5)),
             "axis": draw(st.integers(0, 1)), "alpha_thin": draw(gen.signed_log(1e-2, 0.4)),
